@@ -38,6 +38,8 @@ def rules(ctx):
     c0410(ctx)
     from . import C13
     C13.c135(ctx)
+    from . import C05
+    C05.c053(ctx)   # every output that is summed into the edit's 'O' is also named by the edit (and every input removed)
 
 
 def gate_dominates(f, g, pt):
